@@ -1002,6 +1002,10 @@ func (runInfo *runInfoStruct) runChanStmt(stmt *ast.ChanStmt) {
 		runInfo.expr = stmt.OkExpr
 		runInfo.invokeLetExpr()
 		// TODO: ok to ignore error?
+		if runInfo.err == ErrInterrupt {
+			// never the cancellation of the run
+			return
+		}
 	}
 
 	if ok {
